@@ -19,6 +19,10 @@ def configs(tier, seed):
             continue
         yield {"latency": latency, "gap_hours": gaph, "markov": markov, "warmup_hours": w, "fold": fold, "shuffle": sh, "n_grid": 6,
                "ticks": True}
+    # an earlier episode with an explicit length (a sampled sub-window), abandoned, before the two recorded full episodes
+    for latency, markov, fold in itertools.product([0, 30], [False, True], [None, (1, 5)] if tier == "quick" else [None, (1, 5), (0, 3)]):
+        yield {"latency": latency, "gap_hours": 24, "markov": markov, "warmup_hours": None, "fold": fold, "shuffle": seed, "n_grid": 6,
+               "ticks": True, "length_first": 3}
     # bar-shaped data: exactly one quote per timestep and nothing else (each step's only event is the first of its day)
     for gaph, fold in itertools.product([24, 48] if tier == "quick" else [12, 24, 48, 168], [None, (1, 4)]):
         yield {"latency": 0, "gap_hours": gaph, "markov": False, "warmup_hours": None, "fold": fold, "shuffle": seed, "n_grid": 6,
@@ -51,11 +55,19 @@ def run_config(cfg):
     ticks = {e.uid: e.time for e in evs if isinstance(e, Tick)}
     order_in = {e.uid: i for i, e in enumerate(evs) if isinstance(e, Tick)}
     checks = []
+    if cfg.get("length_first"):
+        np.random.seed(cfg["shuffle"])
+        env.reset(fold="f" if fold else "training-set", episode_length=cfg["length_first"])
+        env.step(np.array([0.1]))
+    lo, hi = (grid[fold[0]], grid[fold[1]]) if fold else (grid[0], grid[-1])
     for ep in range(2):
         rec.log = []
         env.reset(fold="f" if fold else "training-set")
         steps = [t if isinstance(t, datetime) else t.to_pydatetime() if hasattr(t, "to_pydatetime") else t for t in env._transmitter._steps]
         first, last = steps[0], steps[-1]
+        # every grid point carries a quote here, so a plain reset must plan exactly the grid points of the fold, whatever came before
+        checks.append(("episode_visits_every_timestep_of_the_fold", steps == [g for g in grid if lo <= g <= hi],
+                       {"episode": ep, "planned": [str(x) for x in steps], "fold": [str(lo), str(hi)]}))
         # a fold of a single timestep is exhausted by reset itself (the stream runs out while the next batch is fetched): the episode
         # is then already over and C09 says every step is refused; so the loop starts from the environment's own flag
         done = bool(env._done)
